@@ -234,7 +234,7 @@ def run(ctx):
         if not res.ok:
             raise tlc.TLCMachineryError(f"{name}: twin-run specification violates {res.violated} {res.errors}\n" + "\n".join(res.trace)[-2500:])
     # R: real save / load at every stop point
-    tasks = sp.gen_tasks(ctx, rng, 12 if quick else 80, 6 if quick else 20, make_groups, 6, (), ("mom", "b1", "wd", "lr"))
+    tasks = sp.gen_tasks(ctx, rng, 20 if quick else 80, 6 if quick else 20, make_groups, 6, (), ("mom", "b1", "wd", "lr"))
     rtasks = []
     for i, (d, beh, _) in enumerate(tasks):
         if i % 4 == 1:
@@ -247,7 +247,7 @@ def run(ctx):
             for g in d["groups"]:
                 if g.get("method") in ("newton", "higher"):
                     g["method"] = "eigen"
-        ks = list(range(0, len(beh) + 1)) if not quick else sorted(set([0, len(beh)] + rng.sample(range(len(beh) + 1), min(3, len(beh) + 1))))
+        ks = list(range(0, len(beh) + 1))          # every stop point
         rtasks.append((d, beh, ks))
     res = sp.pool_map(resume_task, rtasks)
     sp.collect(ctx, [(d, b, None) for d, b, _ in rtasks], res, [None] * len(rtasks), owns, "resume")
